@@ -81,6 +81,18 @@ PROPS["C08"] = {
     "level_note": "KMAC256 idealised: a tag verifies only for the exact stream it was computed on under the same key (2^-256 forgery excluded); the harness's independent wire reader; acceptance checked on copies of the master key with both refresh flags",
 }
 
+PROPS["C13"] = {
+    "modules": ["CC.Props.C13"],
+    "campaigns": [hist("C13", BOTH), {"name": "golden", "configs": BOTH}],
+    "level_text": "Lean theorems over the byte-level wire model: LEB128 round trip on the whole u64 range, and decode(encode x ++ rest) = (x, rest) for attributes, dimensions, access structures (V1 and V2), right keys, encapsulations (classic / hybridised), encrypted and cleartext headers (absent = empty metadata), public keys and user keys, for all well-formed values of any size. Correspondence: every object produced in random histories is serialised by the real code and decoded + re-encoded byte-exactly by the model (announced length, equality after round trip on the real side), round trips injected at random points of histories, and the golden corpus serialised by the pinned release is read and used by the current code and read by the model (a test on samples, labelled as such)",
+    "level_note": "leaf (scalar / point / ML-KEM) encodings are opaque fixed-size blobs with an abstract validity predicate; Rust's String::from_utf8 is modelled by Lean's String.validateUTF8; the master-key round trip is covered by the byte-exact correspondence, not yet by a theorem",
+}
+PROPS["C14"] = {
+    "modules": ["CC.Props.C14"], "campaigns": [hist("C14", BOTH)], "quick_configs": ONE,
+    "level_text": "Lean theorems over the wire model for every byte string: reading a count consumes input; a length-prefixed vector is read only when it fits in the remaining input; a loop `for 0..n` whose reader consumes input performs at most |input|+1 reads whatever n (up to 2^64-1) and fails when n exceeds the input; pre-allocations are bounded by the remaining input (and every with_capacity / read_vec site of the source is re-extracted on every run and checked to be the bounded form); decoded encapsulations have at least one trap; the revision iterator terminates (zero chains included). Oracle on the real code in worker processes (RLIMIT_AS, watchdog, counting allocator): truncations, byte corruptions, boundary counts, random strings; accepted mutants are used; accepted => accepted by the model",
+    "level_note": "time / memory of the leaves' own decoders (curve points, ML-KEM keys) and of the allocator are outside the model; the worker-process oracle measures them with fixed linear bounds",
+}
+
 # operations whose ok/err status or outcome is what the property talks about
 BEHAVIOUR_KINDS = {"behaviour", "status", "panic"}
 
